@@ -423,14 +423,18 @@ def pack_literal(spec: ValueSpec) -> Expression:
                     resolved_type_params=resolved_type_params,
                 )
                 with lines.indent(
-                    f"if value == {enum_type_name}.{literal_value.name}:"
+                    f"if value.__class__ is {enum_type_name} "
+                    f"and value == {enum_type_name}.{literal_value.name}:"
                 ):
                     lines.append(f"return {packer}")
             elif isinstance(
                 literal_value,
                 (int, str, bytes, bool, NoneType),  # type: ignore
             ):
-                with lines.indent(f"if value == {literal_value!r}:"):
+                with lines.indent(
+                    f"if value.__class__ is ({literal_value!r}).__class__ "
+                    f"and value == {literal_value!r}:"
+                ):
                     lines.append(f"return {packer}")
         field_type = spec.builder.get_type_name_identifier(
             typ=spec.type,
